@@ -1166,6 +1166,10 @@ def minimise(exe, sz, ops, pred):
     return [head] + [ops[i] for i in idx]
 
 
+
+def replay_file(path):
+    return vlib.generic_replay(path, build_harness, "allocdriver")
+
 if __name__ == "__main__":
     pid = sys.argv[1] if len(sys.argv) > 1 else "C18"
     tier = sys.argv[2] if len(sys.argv) > 2 else "quick"
